@@ -3,6 +3,7 @@ use crate::common::Unit;
 
 pub mod c01;
 pub mod c12;
+pub mod c19;
 pub mod c15;
 pub mod c17;
 pub mod c18;
@@ -20,12 +21,13 @@ pub mod c13;
 pub mod c08;
 pub mod c03;
 
-pub const ALL: &[&str] = &["C01", "C02", "C03", "C04", "C05", "C06", "C07", "C08", "C09", "C10", "C11", "C12", "C13", "C14", "C15", "C16", "C17", "C18"];
+pub const ALL: &[&str] = &["C01", "C02", "C03", "C04", "C05", "C06", "C07", "C08", "C09", "C10", "C11", "C12", "C13", "C14", "C15", "C16", "C17", "C18", "C19"];
 
 pub fn units(prop: &str, tier: &str, seed: u64) -> Vec<String> {
     match prop {
         "C01" => c01::units(tier, seed),
         "C12" => c12::units(tier, seed),
+        "C19" => c19::units(tier, seed),
         "C15" => c15::units(tier, seed),
         "C17" => c17::units(tier, seed),
         "C18" => c18::units(tier, seed),
@@ -50,6 +52,7 @@ pub fn scenario(prop: &str, u: &Unit) -> String {
     match prop {
         "C01" => c01::scenario(u),
         "C12" => c12::scenario(u),
+        "C19" => c19::scenario(u),
         "C15" => c15::scenario(u),
         "C17" => c17::scenario(u),
         "C18" => c18::scenario(u),
@@ -72,5 +75,5 @@ pub fn scenario(prop: &str, u: &Unit) -> String {
 
 /// properties about outcomes (panics, error kinds): every unclassified branch side counts
 pub fn strict_unexplored(prop: &str) -> bool {
-    matches!(prop, "C16")
+    matches!(prop, "C16" | "C19")
 }
